@@ -27,6 +27,24 @@ fn main() {
         std::fs::write(&args[2], text).expect("write aux file");
         std::process::exit(0);
     }
+    if args[1] == "rare-cache" {
+        // precompute the reference-guided rare-event search (depends only on the reference models)
+        let seed: u64 = std::env::var("VERIF_SEED").ok().and_then(|s| s.parse::<i128>().ok()).map(|v| v as u64).unwrap_or(0);
+        for k in [explore::rare::Kind::Hc128, explore::rare::Kind::Isaac, explore::rare::Kind::Isaac64] {
+            let (e, w) = explore::rare::events_for(k, seed, args.get(2).map(|s| s == "thorough").unwrap_or(false));
+            println!("{:?}: {} events in {} reference words", k, e.len(), w);
+        }
+        std::process::exit(0);
+    }
+    if args[1] == "rare" {
+        let kind = match args[2].as_str() { "hc" => explore::rare::Kind::Hc128, "isaac" => explore::rare::Kind::Isaac, _ => explore::rare::Kind::Isaac64 };
+        let n: u64 = args[3].parse().unwrap();
+        let t = std::time::Instant::now();
+        let (ev, words) = explore::rare::find_events(kind, 0, n, 1 << 20, 4);
+        println!("{} words in {:.1}s: {} events", words, t.elapsed().as_secs_f64(), ev.len());
+        for e in ev { println!("  {} at {} value {:#x}", e.what, e.word_index, e.value); }
+        std::process::exit(0);
+    }
     let id = args[1].clone();
     if args[2] == "--replay" {
         let path = args.get(3).expect("replay file");
